@@ -72,6 +72,9 @@ def run_xspec(spec):
 
     res = Result()
     rng = core.rng_for("C20", spec["tier"], spec["seed"], spec["shard"])
+    # every name the class declares is "absent" unless the text names it
+    declared = [n for n in getattr(XSpec, "__annotations__", {}) if not n.startswith("_") and n != "env"]
+    res.info["declared_spec_names"] = declared
     for i in range(spec["n"]):
         nkeys = rng.choice((1, 1, 2, 3, 4, 6))
         entries = []  # (kind, key, value)
@@ -113,9 +116,9 @@ def run_xspec(spec):
                     res.violation(f"attribute-value-wrong:{kind}", f"{text!r}: {k!r} -> {got!r}, want {v!r}")
         if s.env != want_env:
             res.violation("env-mapping-wrong", f"{text!r}: {s.env!r} != {want_env!r}")
-        for absent in ("nosuchname", "zz" + str(i), "chdir", "python", "via", "socket", "ssh", "popen"):
+        for absent in ["nosuchname", "zz" + str(i), "chdir", "python", "via", "socket", "ssh", "popen"] + declared:
             if absent not in used and getattr(s, absent) is not None:
-                res.violation("absent-name-not-none", f"{text!r}: {absent}")
+                res.violation("absent-name-not-none", f"{text!r}: {absent} -> {getattr(s, absent)!r}")
         if str(s) != text:
             res.violation("str-not-input", f"{text!r} -> {str(s)!r}")
         try:
@@ -126,6 +129,16 @@ def run_xspec(spec):
             continue
         if s3.env != want_env or s2.env is s3.env:
             res.violation("env-mapping-wrong-on-later-parse", f"{text!r}: {s3.env!r} != {want_env!r} (shared={s2.env is s3.env})")
+        # a spec that has been used (a group wrote an id / exec model into it, the application set an attribute) still
+        # compares and hashes by its text
+        s4 = XSpec(text)
+        if "id" not in used:
+            s4.id = "gw%d" % i
+        if "execmodel" not in used:
+            s4.execmodel = "thread"
+        s4.application_note = i
+        if not (s4 == s) or (s4 != s) or hash(s4) != hash(s) or s4 not in {s} or {s4: 1}.get(s) != 1 or [s4].index(s) != 0:
+            res.violation("eq-hash-not-by-text-after-use", f"{text!r}: ==:{s4 == s} !=:{s4 != s} hash:{hash(s4) == hash(s)}")
         other = XSpec(text + "//zzextra") if "zzextra" not in used else XSpec("q")
         if not (s == s2) or (s != s2) or hash(s) != hash(s2) or hash(s) != hash(text):
             res.violation("eq-hash-not-by-text", text)
